@@ -70,6 +70,16 @@ def jobs(tier):
                        functions=["_vnacal_new_solve_calc_pvalue (no degrees of freedom)"],
                        bound="%s 1x1, short/open/match (exactly determined), nf = tr = 1; the three solved terms: any numbers" % t,
                        timeout=300, cbmc_flags=["--no-leak", "--slice-formula"]))
+    # the real _vnacal_new_solve_update_v_matrices on the mixed history (first column system exact, second over-determined)
+    sv = [x for x in srcs if x not in ("vnacommon_minverse.c",)]
+    for t, si in ([("VNACAL_UE14", 1), ("VNACAL_UE14", 0), ("VNACAL_E12", 1), ("VNACAL_T8", 0)] if tier == "quick" else
+                  [(t, si) for t in ("VNACAL_UE14", "VNACAL_E12") for si in (0, 1)] + [(t, 0) for t in ("VNACAL_T8", "VNACAL_U8", "VNACAL_TE10", "VNACAL_UE10")]):
+        J.append(V.Job("update_v.%s_s%d" % (t[7:], si), "vnacal/c18_v.c", "h_update_v", sv,
+                       defines=C20.CUT + ["-DCAL_TYPE=%s" % t, "-DV_SINDEX=%d" % si], unwind=20, union_struct=True,
+                       kind="bounded", canary=((t == "VNACAL_UE14" and si == 1) or t == "VNACAL_T8"),
+                       functions=["_vnacal_new_solve_update_v_matrices", "update_v_ue14", "update_v_t8", "update_v_u8", "update_v_te10", "update_v_ue10"],
+                       bound="%s 2x2, through + short/open/match per port + two redundant reflects on port 2, noise model on; system %d; inversion kernel by recording contract" % (t, si),
+                       timeout=400, cbmc_flags=["--slice-formula"]))
     for j in C10.jobs("quick"):
         if j.name in ("range.m_error", "spline.knots.n1", "spline.knots.n2", "spline.linear"):
             j.name = "noise_grid." + j.name      # clause: noise vectors on their own grid pass through the given points
